@@ -142,6 +142,8 @@ SEEDS = {
     "C13g-alpha0-commented-when-fs-given": ("C13", "a non-default alpha0 together with a SynchrotronFrequency that was given anywhere, in particular the explicit 0 every saved .cfg contains (second generation): alpha0 is written as a comment", []),
     "C08g-swapoffset-lastbunch-shrinks-for-good": ("C08", "more than one bunch, a per-bunch y kick through swapOffset, and the call order full field / field with fewer blocks than bunches / full field: the last bunch owning a table is clamped with min() and never grows back (library-level programs only)", ["C02"]),
     "C14g-final-renormalisation-by-planned-step": ("C14", "--RenormalizeCharge n > 0 and an interrupt that stops the loop at a step k with (k%n==0) != (laststep%n==0): the final block decides about renormalising from the planned end step, the last record is off by the accumulated charge drift", []),
+    "C10g-final-wake-before-renormalisation": ("C10", "an impedance, RenormalizeCharge n > 0 dividing the number of executed steps, and noticeable charge drift (tight phase space, wide start): in the final block the wake is updated before the renormalisation, the last record's wake belongs to the un-normalised profile", ["C12", "C14"]),
+    "C12g-output-probe-truncates-start-file": ("C12", "the output name is the file the run starts from (-i run.h5 -o run.h5, continuing in place): an early 'can we write there' probe truncates it before it is read - the result depends on what the output file is called", ["C11"]),
     "C10-": ("C10", "", []),
     "C17-": ("C17", "", []),
 }
